@@ -22,7 +22,7 @@ META = dict(
     level="fault_enumeration",
     design_ref="DESIGN.md §5 C38",
     technique="failpoint census + one injected exception per failpoint, subprocess per injection; independent tar/lz4/npy reader decides the state of the target path; fault-free rerun on the same path",
-    level_text="Every failpoint hit observed in the census of a real small solve, of a user-written creating session and of an edit session is failed once (exception raised before the primitive; additionally a half-completed write for every write into the archive and a failure right after every truncating open in the archive's directory); exhaustive over the censused single faults. Thorough adds exception-after-the-call, KeyboardInterrupt, half-completed writes everywhere, two faults in one run and a second fault during the retry (ordered pairs up to equivalence of the on-disk state left by the first fault).",
+    level_text="Quick: every failpoint hit of a user-written creating session and of an edit session, every computation step of a real small solve (OSError/RuntimeError, KeyboardInterrupt and SystemExit at computation steps and user code) and every failpoint of the commit phase with the target on another file system than the temporary directory. Thorough: every failpoint hit observed in the census of a real small solve, of a user-written creating session, of an edit session and of a deep copy (and of the commit phase across file systems) is failed once (exception raised before the primitive; additionally a half-completed write for every write into the archive and a failure right after every truncating open in the archive's directory); exhaustive over the censused single faults. Thorough adds exception-after-the-call, KeyboardInterrupt, half-completed writes everywhere, two faults in one run and a second fault during the retry (ordered pairs up to equivalence of the on-disk state left by the first fault).",
     level_note="Trusted base: the failpoint list (Path.write_text/write_bytes/unlink/mkdir/rmdir/rename/replace/touch, open(w)+file.write incl. tarfile's, np.save/savez, lz4.frame.compress, yaml.dump*, TarFile.add/addfile/extractall, shutil.rmtree/copytree/move/copy*, tempfile.mkdtemp/mkstemp, os.replace/rename/remove/sendfile, parts.evolve/match, operators.join/retrieve, recipes.create, user code); failures of primitives not in this list (e.g. os.mkdir inside mkdtemp, power loss between syscalls, fsync) are not modelled. A complete archive equal to the fault-free result is accepted when the fault hit after the archive was committed (e.g. in the final removal of the temporary directory).",
     rule="case = (workload, failpoint ordinal, mode before/partial/after, kind error/interrupt[, second fault]); distinct by that tuple; non-trivial = the injected fault fired at the censused site and the run terminated with an exception",
     min_nontrivial=100,
@@ -31,8 +31,41 @@ META = dict(
 )
 
 DRIVER = "vlib.drivers.c38_driver"
-WORKLOADS = ("solve", "user", "edit", "copy")
-KIND = dict(solve="new", user="new", edit="edit", copy="new")
+BASE_WORKLOADS = ("solve", "user", "edit", "copy")
+XFS_WORKLOADS = ("user@xfs", "edit@xfs")  # target archive on another file system than the temporary directory
+_KIND = dict(solve="new", user="new", edit="edit", copy="new")
+COMMIT_CALLERS = ("EKO.close", "EKO.dump")
+NONEXC_SITES = {"parts.evolve", "parts.match", "operators.join", "operators.retrieve", "recipes.create", "user-code"}
+
+
+class _Kind(dict):
+    def __missing__(self, wl):
+        return _KIND[wl.split("@")[0]]
+
+
+KIND = _Kind()
+
+
+def second_filesystem(root):
+    """A writable directory on another device than ``root`` (or None)."""
+    import tempfile
+
+    dev = os.stat(root).st_dev
+    for cand in ("/dev/shm", "/tmp", "/var/tmp", os.path.expanduser("~"), "/run/user/%d" % os.getuid()):
+        try:
+            if os.path.isdir(cand) and os.access(cand, os.W_OK) and os.stat(cand).st_dev != dev:
+                d = tempfile.mkdtemp(prefix="eko-verif-c38x-", dir=cand)
+                if os.stat(d).st_dev != dev:
+                    return d
+                shutil.rmtree(d, ignore_errors=True)
+        except OSError:
+            continue
+    return None
+
+
+def commit_phase(h):
+    """Failpoint hit inside the final dump/commit of the archive."""
+    return h["caller"].endswith(COMMIT_CALLERS) or h["detail"].startswith("<OUT>")
 JOB_TIMEOUT = 300
 
 
@@ -46,13 +79,18 @@ def _sig(st):
     return ("archive", h, tuple(st.get("siblings", [])))
 
 
-def _batch(specs):
-    """Run a batch of injection specs through one driver subprocess (one forked child per spec)."""
+GROUP = 6  # injections sharing one forked child (violations are re-run alone before being reported)
+
+
+def _batch(specs, group=None):
+    """Run a batch of injection specs through one driver subprocess (zygote + forked children)."""
+    if group is None:
+        group = GROUP if len(specs) > 1 else 1
     root = pathlib.Path(specs[0]["root"])
     bdir = root / ("batch-" + specs[0]["name"])
     bdir.mkdir(parents=True, exist_ok=True)
     jobs_ = [dict(sp, workdir=str(root / sp["name"])) for sp in specs]
-    (bdir / "batch.json").write_text(json.dumps(dict(jobs=jobs_, timeout=JOB_TIMEOUT)))
+    (bdir / "batch.json").write_text(json.dumps(dict(jobs=jobs_, timeout=JOB_TIMEOUT, group=group)))
     env = dict(os.environ, PYTHONHASHSEED="0", TMPDIR=str(bdir))
     outs = []
     try:
@@ -70,7 +108,7 @@ def _batch(specs):
                 continue
             res = json.loads((wd / "result.json").read_text())
             hits = res.get("hits", [])
-            out = dict(status="ok", phases=res["phases"], initial_state=res["initial_state"])
+            out = dict(status="ok", phases=res["phases"], initial_state=res["initial_state"], devices=res.get("devices"))
             if sp.get("want_hits"):
                 out["hits"] = hits
             else:
@@ -82,6 +120,8 @@ def _batch(specs):
     finally:
         for sp in jobs_:
             shutil.rmtree(sp["workdir"], ignore_errors=True)
+            if sp.get("outdir"):
+                shutil.rmtree(sp["outdir"], ignore_errors=True)
         shutil.rmtree(bdir, ignore_errors=True)
 
 
@@ -90,8 +130,9 @@ def _job(spec):
 
 
 def _chunks(items, workers):
-    n = max(1, min(40, -(-len(items) // (workers * 3))))
-    return [items[i : i + n] for i in range(0, len(items), n)]
+    """One batch (= one zygote, one ``import eko``) per worker; striped so that every batch gets the same mix."""
+    nb = max(1, min(workers, -(-len(items) // 4)))
+    return [items[i::nb] for i in range(nb)]
 
 
 class Oracle:
@@ -154,7 +195,7 @@ class Oracle:
                 ck.inconclusive(f"{wl}: retry fault {case['retry']} did not fire")
                 return None
             site_of = r2["fired"][-1]
-        mech = f"C38/{kind}/{site_of['caller']}"
+        mech = f"C38/{kind}{'@xfs' if wl.endswith('@xfs') else ''}/{site_of['caller']}"
         sample = dict(workload=wl, faults=[dict(ordinal=f["ordinal"], site=f["site"], caller=f["caller"], detail=f["detail"], mode=f["mode"], kind=f["kind"]) for f in fired])
         if case.get("retry"):
             sample["retry_faults"] = [dict(ordinal=f["ordinal"], site=f["site"], caller=f["caller"], mode=f["mode"]) for f in ph["retry"]["fired"]]
@@ -162,6 +203,14 @@ class Oracle:
         nontrivial = bool(r1["raised"])
         ck.case(key, nontrivial=nontrivial, sample=sample)
         ck.hit("faults_fired", len(fired))
+        if wl.endswith("@xfs"):
+            dv = res.get("devices") or {}
+            if dv.get("out") == dv.get("tmp"):
+                ck.inconclusive(f"{wl}: output and temporary directory on the same device")
+                return None
+            ck.hit("cross_fs_faults_fired")
+        if any(f["kind"] in ("interrupt", "sysexit") for f in fired):
+            ck.hit("non_exception_faults_fired")
         bad = False
         last_symptom = None
         # --- state after the failed run(s)
@@ -240,12 +289,58 @@ def _short(st):
     return s
 
 
+XROOT = [None]  # scratch directory on the second file system (set by run)
+
+
 def _spec(root, name, wl, run1, retry=None, rerun=True, seed_archive=None, **kw):
-    sp = dict(root=str(root), name=name, workload=wl, run1=run1, retry=retry, rerun=rerun, order=[1, 0], want_hits=False)
-    if wl in ("edit", "copy"):
+    base = wl.split("@")[0]
+    sp = dict(root=str(root), name=name, workload=base, wl=wl, run1=run1, retry=retry, rerun=rerun, order=[1, 0], want_hits=False)
+    if wl.endswith("@xfs"):
+        sp["outdir"] = str(pathlib.Path(XROOT[0]) / name)
+    if base in ("edit", "copy"):
         sp["seed_archive"] = str(seed_archive)
     sp.update(kw)
     return sp
+
+
+class Rec:
+    """Buffer of the verdict calls of one judged case (flushed to the Check once final)."""
+
+    def __init__(self, ck):
+        self.seed, self.tier = ck.seed, ck.tier
+        self.calls = []
+        self.violations = 0
+
+    def case(self, *a, **k):
+        self.calls.append(("case", a, k))
+
+    def hit(self, *a, **k):
+        self.calls.append(("hit", a, k))
+
+    def ok(self, *a, **k):
+        self.calls.append(("ok", a, k))
+
+    def inconclusive(self, *a, **k):
+        self.calls.append(("inconclusive", a, k))
+
+    def violation(self, *a, **k):
+        self.violations += 1
+        self.calls.append(("violation", a, k))
+
+    def flush(self, ck):
+        for name, a, k in self.calls:
+            getattr(ck, name)(*a, **k)
+
+
+def _judge_buffered(ck, oracle, case, val, census_hits):
+    rec = Rec(ck)
+    saved = oracle.ck
+    oracle.ck = rec
+    try:
+        ph = oracle.judge(case, val, census_hits)
+    finally:
+        oracle.ck = saved
+    return rec, ph
 
 
 def _run_cases(ck, oracle, cases, census_hits):
@@ -256,6 +351,7 @@ def _run_cases(ck, oracle, cases, census_hits):
     bykey = {c["spec"]["name"]: c for c in cases}
     batches = _chunks([c["spec"] for c in cases], jobs.ncpu())
     total = JOB_TIMEOUT * (2 + len(cases) // max(1, jobs.ncpu()))
+    suspects = []
     for batch, status, vals in jobs.pmap(_batch, batches, timeout=total):
         for i, spec in enumerate(batch):
             c = bykey[spec["name"]]
@@ -263,22 +359,57 @@ def _run_cases(ck, oracle, cases, census_hits):
                 ck.case(c["key"], nontrivial=False)
                 ck.inconclusive(f"{c['wl']}: batch {status}: {str(vals)[-200:]}")
                 continue
-            ph = oracle.judge(c, vals[i], census_hits)
+            rec, ph = _judge_buffered(ck, oracle, c, vals[i], census_hits)
+            if rec.violations or vals[i].get("status") != "ok":
+                suspects.append(c)  # decided below, alone in a child of its own
+                continue
+            rec.flush(ck)
             if ph is not None:
                 out[c["key"]] = (ph, vals[i])
+    # anything suspicious is repeated in isolation (one injection per forked child) and only that verdict counts
+    if suspects:
+        ck.hit("rerun_in_isolation", len(suspects))
+        singles = [[dict(c["spec"], name=c["spec"]["name"] + "-iso")] for c in suspects]
+        bysp = {sp[0]["name"]: c for sp, c in zip(singles, suspects)}
+        for batch, status, vals in jobs.pmap(_batch, singles, timeout=total):
+            c = bysp[batch[0]["name"]]
+            if status != "ok":
+                ck.case(c["key"], nontrivial=False)
+                ck.inconclusive(f"{c['wl']}: isolated rerun {status}: {str(vals)[-200:]}")
+                continue
+            rec, ph = _judge_buffered(ck, oracle, dict(c, spec=batch[0]), vals[0], census_hits)
+            rec.flush(ck)
+            if ph is not None:
+                out[c["key"]] = (ph, vals[0])
     return out
 
 
 def run(ck):
     with scratch.tmpdir(prefix="c38-") as root:
         root = pathlib.Path(root)
-        _run(ck, root)
+        XROOT[0] = second_filesystem(root)
+        try:
+            _run(ck, root)
+        finally:
+            if XROOT[0]:
+                shutil.rmtree(XROOT[0], ignore_errors=True)
+                XROOT[0] = None
+
+
+QUICK_WORKLOADS = ("solve", "user", "edit", "user@xfs")
+
+
+def workloads(quick=False):
+    wls = BASE_WORKLOADS + (XFS_WORKLOADS if XROOT[0] else ())
+    if quick:
+        wls = tuple(w for w in wls if w in QUICK_WORKLOADS)
+    return wls
 
 
 def _census(ck, root):
     seed_archive = root / "seed.tar"
     census_hits, ref_final = {}, {}
-    for wl in WORKLOADS:
+    for wl in workloads(ck.quick):
         sp = _spec(root, f"census-{wl}", wl, [], rerun=False, seed_archive=seed_archive, want_hits=True)
         if wl == "solve":
             sp["keep_archive"] = str(seed_archive)
@@ -294,9 +425,17 @@ def _census(ck, root):
         census_hits[wl] = [h for h in res["hits"] if h["phase"] == "run1"]
         ref_final[wl] = st["digest"]
         ck.hit("census_hits", len(census_hits[wl]))
-        if wl == "edit":
+        if wl.endswith("@xfs"):
+            dv = res.get("devices") or {}
+            if not dv or dv.get("out") == dv.get("tmp"):
+                ck.inconclusive(f"census {wl}: output and temporary directory are on the same device {dv}")
+                return None
+            if ref_final[wl] != ref_final[wl.split("@")[0]]:
+                ck.inconclusive(f"census {wl}: result differs from the same-file-system result")
+                return None
+        if wl.split("@")[0] == "edit":
             prev = res["initial_state"].get("digest")
-            if prev != ref_final["solve"] or prev == ref_final["edit"]:
+            if prev != ref_final["solve"] or prev == ref_final[wl]:
                 ck.inconclusive("census edit: the pre-session archive is not the solve result, or the edit session changes nothing")
                 return None
     return census_hits, ref_final, seed_archive
@@ -313,25 +452,45 @@ def _run(ck, root):
     # development knob (mutation self-test under load): inject only into the named workloads;
     # the run is then never reported as exhaustive
     only = [w for w in os.environ.get("VERIF_C38_WORKLOADS", "").split(",") if w]
+    WORKLOADS = workloads(ck.quick)
     active = [w for w in WORKLOADS if not only or w in only]
+    for wl in WORKLOADS:
+        if wl.endswith("@xfs"):
+            # with the target on another file system only the commit phase can behave differently
+            census_hits[wl] = [h if commit_phase(h) else dict(h, skip=True) for h in census_hits[wl]]
+        elif wl == "solve" and ck.quick:
+            # quick: the file-system failpoints of a creating session are enumerated in `user` (same
+            # Builder/Inventory/close code, fewer members); of the real solve only the computation steps
+            census_hits[wl] = [h if h["site"] in NONEXC_SITES else dict(h, skip=True) for h in census_hits[wl]]
     ck.note(
-        failpoints={wl: len(census_hits[wl]) for wl in WORKLOADS},
+        failpoints={wl: sum(1 for h in census_hits[wl] if not h.get("skip")) for wl in WORKLOADS},
         failpoint_sites=sorted({h["site"] for wl in WORKLOADS for h in census_hits[wl]}),
         failpoint_callers=sorted({h["caller"] for wl in WORKLOADS for h in census_hits[wl]}),
+        cross_fs=bool(XROOT[0]),
     )
+    if not XROOT[0]:
+        ck.case(("cross-fs",), nontrivial=False)
+        ck.inconclusive("no second writable file system found: the cross-file-system sub-monitor did not run")
 
     # ------------------------------------------------------------ single faults
     cases = []
     for wl in active:
         for h in census_hits[wl]:
+            if h.get("skip"):
+                continue
             k = h["ordinal"]
             variants = [("before", "error")]
-            into_archive = h["caller"].endswith("EKO.dump") or h["detail"].startswith("<OUT>")
+            into_archive = commit_phase(h) or "<tmp>.tar" in h["detail"]
             if h["site"] in WRITE_SITES and (into_archive or ck.thorough):
                 variants.append(("partial", "error"))
             if h["site"] == "open(w)" and into_archive and not ck.thorough:
                 # opening for writing truncates: a failure right after it (thorough does this everywhere)
                 variants.append(("after", "error"))
+            if h["site"] in NONEXC_SITES:
+                # interruptions that are BaseException but not Exception, inside the with block
+                variants.append(("before", "sysexit"))
+                if not ck.thorough:
+                    variants.append(("before", "interrupt"))
             if ck.thorough:
                 variants.append(("before", "interrupt"))
                 if h["site"] not in COMMIT_SITES:
@@ -343,8 +502,15 @@ def _run(ck, root):
     planned = {(c["wl"], c["faults"][0]["ordinal"]) for c in cases if c["faults"][0]["mode"] == "before" and c["faults"][0]["kind"] == "error"}
     results = _run_cases(ck, oracle, cases, census_hits)
     decided = {(k[0], k[1]) for k in results if k[2] == "before" and k[3] == "error"}
-    all_hits = {(wl, h["ordinal"]) for wl in WORKLOADS for h in census_hits[wl]}
-    exhaustive_single = planned == all_hits and decided == all_hits and not only
+    all_hits = {(wl, h["ordinal"]) for wl in WORKLOADS for h in census_hits[wl] if not h.get("skip")}
+    complete_single = planned == all_hits and decided == all_hits and not only
+    # "exhaustive" is claimed only when every censused failpoint of every workload was injected (thorough)
+    exhaustive_single = complete_single and ck.thorough
+    if ck.quick:
+        ck.note(
+            quick_failpoint_sets_complete=bool(complete_single),
+            quick_failpoint_sets="user, edit: every failpoint; solve: every computation step; user@xfs: every failpoint of the commit phase (EKO.close/EKO.dump); file-system failpoints of the real solve, the copy workload and edit@xfs only in the thorough tier",
+        )
     if only:
         ck.note(restricted_to_workloads=active)
     ck.note(single_faults_injected=len(decided), single_faults_censused=len(all_hits))
@@ -426,14 +592,23 @@ def replay(ck, rep):
     w = rep["witness"]
     with scratch.tmpdir(prefix="c38-") as root:
         root = pathlib.Path(root)
-        got = _census(ck, root)
-        if got is None:
-            return
-        census_hits, ref_final, seed_archive = got
-        oracle = Oracle(ck, ref_final, ref_final["solve"])
-        sp = dict(w["spec"], root=str(root), name="replay")
-        if sp["workload"] in ("edit", "copy"):
-            sp["seed_archive"] = str(seed_archive)
-        case = dict(key=("replay",), wl=sp["workload"], faults=sp["run1"], retry=sp.get("retry"), spec=sp)
-        ck.min_nontrivial = 1
-        oracle.judge(case, _job(sp), census_hits)
+        XROOT[0] = second_filesystem(root)
+        try:
+            got = _census(ck, root)
+            if got is None:
+                return
+            census_hits, ref_final, seed_archive = got
+            oracle = Oracle(ck, ref_final, ref_final["solve"])
+            old = w["spec"]
+            wl = old.get("wl", old["workload"])
+            if wl.endswith("@xfs") and not XROOT[0]:
+                ck.inconclusive("replay needs a second file system")
+                return
+            sp = _spec(root, "replay", wl, old["run1"], retry=old.get("retry"), seed_archive=seed_archive)
+            case = dict(key=("replay",), wl=wl, faults=sp["run1"], retry=sp.get("retry"), spec=sp)
+            ck.min_nontrivial = 1
+            oracle.judge(case, _job(sp), census_hits)
+        finally:
+            if XROOT[0]:
+                shutil.rmtree(XROOT[0], ignore_errors=True)
+                XROOT[0] = None
